@@ -893,6 +893,41 @@ func c08_7(c *core.Ctx, p *core.Prog) {
 	}
 }
 
+// returnsOnlyWhenClear: every return of the constant k in h is under a test that found the bool field clear.
+func returnsOnlyWhenClear(h *ssa.Function, k int64, latch *types.Var) bool {
+	n := 0
+	for _, r := range core.Returns(h) {
+		if len(r.Results) != 1 {
+			return false
+		}
+		v, isK := core.ConstInt(r.Results[0])
+		if !isK {
+			return false // not an enumeration of outcomes
+		}
+		if v != k {
+			continue
+		}
+		n++
+		ok := false
+		for _, b := range h.Blocks {
+			iff := core.IfOf(b)
+			if iff == nil {
+				continue
+			}
+			if isFieldLoad(iff.Cond, latch) && core.GuardedBy(iff, false, r) {
+				ok = true
+			}
+			if u, isU := iff.Cond.(*ssa.UnOp); isU && u.Op == token.NOT && isFieldLoad(u.X, latch) && core.GuardedBy(iff, true, r) {
+				ok = true
+			}
+		}
+		if !ok {
+			return false
+		}
+	}
+	return n > 0
+}
+
 // progressKind classifies the state change that accompanies the request.
 func progressKind(fn *ssa.Function, inc *ssa.Call) string {
 	must := func(pred func(ssa.Instruction) bool) bool {
@@ -978,6 +1013,15 @@ func progressKind(fn *ssa.Function, inc *ssa.Call) string {
 			}
 			if u, ok := iff.Cond.(*ssa.UnOp); ok && u.Op == token.NOT && isFieldLoad(u.X, latch) && core.GuardedBy(iff, true, inc) {
 				return "a one-shot latch (set here, request only when clear)"
+			}
+			// the decision is taken by a helper that enumerates the outcomes: the request is under `h() == K`
+			// and h returns K only where the latch is clear
+			if cmp, ok := iff.Cond.(*ssa.BinOp); ok && cmp.Op == token.EQL && core.GuardedBy(iff, true, inc) {
+				hc, isC := cmp.X.(*ssa.Call)
+				k, isK := core.ConstInt(cmp.Y)
+				if isC && isK && hc.Call.StaticCallee() != nil && hc.Call.StaticCallee().Blocks != nil && returnsOnlyWhenClear(hc.Call.StaticCallee(), k, latch) {
+					return "a one-shot latch (set here, request only when the helper found it clear)"
+				}
 			}
 		}
 	}
